@@ -360,11 +360,13 @@ pub mod canvas {
         pub prints: Vec<(usize, usize, String)>,
         pub cursor: Option<(usize, usize)>,
         pub clears: usize,
+        /// every put_cell since the last clear(), in call order, inside the area or not
+        pub all: Vec<(usize, usize, char, Attr)>,
     }
 
     impl Rec {
         pub fn new(width: usize, height: usize) -> Self {
-            Rec { width, height, cells: vec![], outside: vec![], prints: vec![], cursor: None, clears: 0 }
+            Rec { width, height, cells: vec![], outside: vec![], prints: vec![], cursor: None, clears: 0, all: vec![] }
         }
         /// final content of each cell (later writes win)
         pub fn grid(&self) -> std::collections::BTreeMap<(usize, usize), (char, Attr)> {
@@ -383,10 +385,12 @@ pub mod canvas {
         fn clear(&mut self) -> tuikit::Result<()> {
             self.clears += 1;
             self.cells.clear();
+            self.all.clear();
             Ok(())
         }
         fn put_cell(&mut self, row: usize, col: usize, cell: Cell) -> tuikit::Result<usize> {
             let w = cell.ch.width().unwrap_or(2);
+            self.all.push((row, col, cell.ch, cell.attr));
             if row >= self.height || col >= self.width {
                 self.outside.push((row, col, cell.ch));
             } else {
